@@ -185,7 +185,7 @@ def r20b(ctx, rep, cr):
 
 def r20c(ctx, rep):
     rep.rule('R20c', 'lossless codecs use invertible arithmetic: in delta / varint / rle encode and decode, no value that is pushed to the '
-                     'output has saturating_*, min/max/clamp, abs or checked_* (discarding None) on its def-use path — those operations '
+                     'output or returned (in the function or in a closure it passes to an iterator adaptor) has saturating_*, min/max/clamp, abs or checked_* (discarding None) on its def-use path — those operations '
                      'map distinct inputs to one output, so the decoder cannot invert them')
     cr = ctx.crate('tensor_compress')
     n = 0
@@ -195,18 +195,19 @@ def r20c(ctx, rep):
             rep.violation('R20c', 'anchor-missing', name, '-', 'anchor-missing: %s not found' % name)
             continue
         rep.analysed(f)
-        defs = A.Defs(f)
-        pushes = [c for c in A.calls(f) if re.search(r'Vec::<T, A>::push$|Vec::<T, A>::extend\w*$', c.generic)]
-        if not pushes:
-            rep.violation('R20c', f, 'no-output', f.loc(), 'anchor-missing: no output push')
-            continue
+        # outputs: what is pushed / extended into a Vec, and the returned value itself, in the function and in its closures
+        # (an iterator-chain body `ids.windows(2).map(|w| ..).collect()` keeps its arithmetic in the closure)
         bad = set()
-        for c in pushes:
-            for a in c.args[1:]:
-                if a[0] == 'k':
-                    continue
-                sl = A.backward_slice(f, [a], defs)
-                bad |= {x for x in sl.calls if NON_INJECTIVE.search(x)}
+        n_out = 0
+        for g in [f] + [h for k, h in sorted(cr.fns.items()) if A.parent_fn(k) == f.name and k != f.name]:
+            gd = A.Defs(g)
+            outs = [0]
+            for c in A.calls(g):
+                if re.search(r'Vec::<T, A>::push$|Vec::<T, A>::extend\w*$', c.generic):
+                    outs += [a for a in c.args[1:] if a[0] != 'k']
+            n_out += len(outs)
+            sl = A.backward_slice(g, outs, gd)
+            bad |= {x for x in sl.calls if NON_INJECTIVE.search(x)}
         n += 1
         if bad:
             rep.violation('R20c', f, 'non-injective', f.loc(),
